@@ -12,6 +12,7 @@ package ecmascript_test
 import (
 	"context"
 	"fmt"
+	"math"
 	"strings"
 	"testing"
 
@@ -149,6 +150,7 @@ func runC10(c *sim.Ctx, t *testing.T, concurrent bool) {
 	plan[nexec-1] = 0 // always end with a probe
 	useCompiled := c.Bool("precompiled")
 	emptyProps := !concurrent && c.Chance(1, 3, "emptyprops")
+	nanBindings := c.Chance(1, 5, "nanbindings")
 
 	type result struct {
 		bsBefore, bsAfter, propsBefore, propsAfter string
@@ -172,14 +174,19 @@ func runC10(c *sim.Ctx, t *testing.T, concurrent bool) {
 		if emptyProps {
 			props = core.StepProps{} // a host that passes empty, non-nil properties
 		}
+		if nanBindings {
+			// a value an earlier action computed (say sum/count with count == 0): the copy
+			// the interpreter makes of the bindings cannot be made through JSON
+			bs["avg"] = math.NaN()
+		}
 		r := &results[i]
-		r.bsBefore, r.propsBefore = ref.Canon(map[string]interface{}(bs)), propsCanon(props)
+		r.bsBefore, r.propsBefore = typedCanon(bs), propsCanon(props)
 		var compiled interface{}
 		if useCompiled {
 			compiled = pg.compiled
 		}
 		exe, err := interp.Exec(ctx, bs, props, pg.src, compiled)
-		r.bsAfter, r.propsAfter = ref.Canon(map[string]interface{}(bs)), propsCanon(props)
+		r.bsAfter, r.propsAfter = typedCanon(bs), propsCanon(props)
 		if err != nil {
 			r.err = err.Error()
 			return
@@ -234,6 +241,12 @@ func runC10(c *sim.Ctx, t *testing.T, concurrent bool) {
 			}
 			c.Violate(sig, "execution %d (%s) changed the caller's step properties: %s -> %s", i, what, r.propsBefore, r.propsAfter)
 		}
+		if nanBindings {
+			// the execution may legitimately fail (its bindings cannot be copied); only the
+			// caller's side is asserted
+			c.Count("executions_with_unencodable_bindings")
+			continue
+		}
 		if plan[i] == 0 {
 			c.Count("probes")
 			wantBs, wantOut := c10Expected(float64(i), emptyProps)
@@ -255,7 +268,7 @@ func runC10(c *sim.Ctx, t *testing.T, concurrent bool) {
 		}
 	}
 	c.MixHash(shape)
-	c.Path = shape + fmt.Sprint(concurrent, useCompiled, emptyProps)
+	c.Path = shape + fmt.Sprint(concurrent, useCompiled, emptyProps, nanBindings)
 	for _, pg := range progs[1:] {
 		c.Path += fmt.Sprint(pg.attacks)
 	}
